@@ -297,7 +297,7 @@ def run_shard(pid, tier, seed, shard, nshards, outpath):
 
     try:
         # 1. regression tier (only shard 0)
-        if shard == 0:
+        if shard == 0 and not os.environ.get("VERIF_SKIP_REPLAYS"):
             run_replays(mod, stats, known)
         # 2. enumerations of finite sub-spaces
         if stats.violation is None and hasattr(mod, "enumerations"):
